@@ -423,6 +423,10 @@ func (fl *c09Flow) forkBool(s kit.S, l, r ast.Expr) []kit.S {
 		return []kit.S{s}
 	}
 	ts, fs := fl.st.Eval.Eval(r, s)
+	if fl.afterCond != nil {
+		// a condition held in a local is a condition
+		ts, fs = fl.afterCond(r, ts, fs)
+	}
 	var out []kit.S
 	for _, y := range ts {
 		out = append(out, y.Set("v:"+kit.VarID(o), "true"))
